@@ -93,70 +93,132 @@ theorem sisCorrect_ok (cfg : SisCfg ℝ) (lin circ : Nat) (hN : 0 < cfg.N) (s : 
     · simp only [Bool.not_true, Bool.false_eq_true, if_false]
       exact hp.toShapeOK
 
+/-- contract of a resampling object inside SIS: from a well-formed normalised corrected set and a
+    destination of the filter's shape it produces a well-formed set with uniform weights `-log N` -/
+def ResamplerOK (N lin circ : Nat) (rs : PSet π ℝ → PSet π ℝ → ℝ → PSet π ℝ × List Int) : Prop :=
+  ∀ cor res u, SetOK N lin circ cor → ShapeOK N lin circ res →
+    SetOK N lin circ (rs cor res u).1 ∧ (rs cor res u).1.logw = List.replicate N (-(Real.log (N : ℝ)))
+
+theorem fresh_shapeOK (N lin circ : Nat) : ShapeOK N lin circ (PSet.fresh N lin circ : PSet π ℝ) :=
+  { n := rfl, lin := rfl, circ := rfl, quat := rfl, parts := by simp [PSet.fresh], logw := by simp [PSet.fresh] }
+
+/-- `Resampling::resample` meets the contract -/
+theorem resample_resamplerOK (N lin circ : Nat) (hN : 0 < N) : ResamplerOK N lin circ (resample (π := π) (α := ℝ)) := by
+  intro cor res u1 h hr
+  have hl : (resample cor res u1).1.logw = List.replicate N (-(Real.log (N : ℝ))) := by
+    rw [resample_logw, h.logw, List.drop_eq_nil_of_le (by rw [hr.logw]), List.append_nil]
+  refine ⟨?_, hl⟩
+  exact { n := hr.n, lin := hr.lin, circ := hr.circ, quat := hr.quat,
+          parts := by
+            rw [resample_parts, h.logw, List.drop_eq_nil_of_le (by rw [hr.parts]), List.append_nil]
+            simp [resampleIdx_length, h.logw],
+          logw := by rw [hl]; simp,
+          norm := by rw [hl]; exact sum_exp_uniform N hN }
+
 /-- the resampled set, built as `ParticleSet(N, cor.dim_linear, cor.dim_circular)` and filled by `resample` -/
 theorem resampled_ok (N lin circ : Nat) (hN : 0 < N) (cor : PSet π ℝ) (h : SetOK N lin circ cor) (u1 : ℝ) :
     SetOK N lin circ (resample cor (PSet.fresh N cor.lin cor.circ) u1).1 ∧
     (resample cor (PSet.fresh N cor.lin cor.circ) u1).1.logw = List.replicate N (-(Real.log (N : ℝ))) := by
-  have hl : (resample cor (PSet.fresh N cor.lin cor.circ : PSet π ℝ) u1).1.logw = List.replicate N (-(Real.log (N : ℝ))) := by
-    rw [resample_logw, h.logw]
-    simp [PSet.fresh]
-  refine ⟨?_, hl⟩
-  exact { n := rfl, lin := h.lin, circ := h.circ, quat := rfl,
-          parts := by rw [resample_parts, h.logw]; simp [PSet.fresh, resampleIdx_length, h.logw],
-          logw := by rw [hl]; simp,
-          norm := by rw [hl]; exact sum_exp_uniform N hN }
+  have := resample_resamplerOK (π := π) N lin circ hN cor (PSet.fresh N cor.lin cor.circ) u1 h
+    (by rw [h.lin, h.circ]; exact fresh_shapeOK N lin circ)
+  exact this
 
-theorem sisStep_step (cfg : SisCfg ℝ) (s : SisState π ℝ) (ev : SisEvent π ℝ) :
-    (sisStep cfg s ev).step = s.step + 1 := by
-  unfold sisStep
+section stepWith
+variable (rs : PSet π ℝ → PSet π ℝ → ℝ → PSet π ℝ × List Int)
+
+theorem sisStepWith_step (cfg : SisCfg ℝ) (s : SisState π ℝ) (ev : SisEvent π ℝ) :
+    (sisStepWith rs cfg s ev).step = s.step + 1 := by
+  unfold sisStepWith
   simp only
   split <;> rfl
 
-theorem sisStep_pred (cfg : SisCfg ℝ) (s : SisState π ℝ) (ev : SisEvent π ℝ) :
-    (sisStep cfg s ev).pred = sisPredict s ev := by
-  unfold sisStep
+theorem sisStepWith_pred (cfg : SisCfg ℝ) (s : SisState π ℝ) (ev : SisEvent π ℝ) :
+    (sisStepWith rs cfg s ev).pred = sisPredict s ev := by
+  unfold sisStepWith
   simp only
   split <;> rfl
 
-theorem sisStep_resampled (cfg : SisCfg ℝ) (s : SisState π ℝ) (ev : SisEvent π ℝ) :
-    (sisStep cfg s ev).resampled = sisTrigger cfg (sisCorrect cfg s ev) := by
-  unfold sisStep
+theorem sisStepWith_resampled (cfg : SisCfg ℝ) (s : SisState π ℝ) (ev : SisEvent π ℝ) :
+    (sisStepWith rs cfg s ev).resampled = sisTrigger cfg (sisCorrect cfg s ev) := by
+  unfold sisStepWith
   simp only
   split
   · next h => simp [h]
   · next h => simp at h; simp [h]
+
+theorem sisStepWith_cor (cfg : SisCfg ℝ) (s : SisState π ℝ) (ev : SisEvent π ℝ) :
+    (sisStepWith rs cfg s ev).cor =
+      if sisTrigger cfg (sisCorrect cfg s ev) then
+        (rs (sisCorrect cfg s ev) (PSet.fresh cfg.N (sisCorrect cfg s ev).lin (sisCorrect cfg s ev).circ)
+          (s.rng.headD default)).1
+      else sisCorrect cfg s ev := by
+  unfold sisStepWith
+  simp only
+  split <;> rfl
+
+theorem sisStepWith_parents (cfg : SisCfg ℝ) (s : SisState π ℝ) (ev : SisEvent π ℝ) :
+    (sisStepWith rs cfg s ev).parents =
+      if sisTrigger cfg (sisCorrect cfg s ev) then
+        (rs (sisCorrect cfg s ev) (PSet.fresh cfg.N (sisCorrect cfg s ev).lin (sisCorrect cfg s ev).circ)
+          (s.rng.headD default)).2
+      else [] := by
+  unfold sisStepWith
+  simp only
+  split <;> rfl
+
+theorem sisStepWith_rng (cfg : SisCfg ℝ) (s : SisState π ℝ) (ev : SisEvent π ℝ) :
+    (sisStepWith rs cfg s ev).rng = if sisTrigger cfg (sisCorrect cfg s ev) then s.rng.tail else s.rng := by
+  unfold sisStepWith
+  simp only
+  split <;> rfl
+
+theorem sisStepWith_flags (cfg : SisCfg ℝ) (s : SisState π ℝ) (ev : SisEvent π ℝ) :
+    (sisStepWith rs cfg s ev).skipPred = (sisFlags s ev).1 ∧ (sisStepWith rs cfg s ev).skipCor = (sisFlags s ev).2 := by
+  unfold sisStepWith
+  simp only
+  split <;> exact ⟨rfl, rfl⟩
+
+theorem sis_inv_stepWith (cfg : SisCfg ℝ) (lin circ : Nat) (hN : 0 < cfg.N) (hrs : ResamplerOK cfg.N lin circ rs)
+    (s : SisState π ℝ) (ev : SisEvent π ℝ) (hinv : SisInv cfg lin circ s) (hev : EvOK cfg.N ev) :
+    SisInv cfg lin circ (sisStepWith rs cfg s ev) := by
+  have hc := sisCorrect_ok cfg lin circ hN s ev hinv hev
+  refine { pred := ?_, pred0 := ?_, cor := ?_ }
+  · rw [sisStepWith_pred]; exact (sisPredict_ok cfg lin circ s ev hinv hev.pred).toShapeOK
+  · intro h; rw [sisStepWith_step] at h; omega
+  · intro _
+    rw [sisStepWith_cor]
+    split
+    · exact (hrs _ _ _ hc (by rw [hc.lin, hc.circ]; exact fresh_shapeOK cfg.N lin circ)).1
+    · exact hc
+
+end stepWith
+
+theorem sisStep_step (cfg : SisCfg ℝ) (s : SisState π ℝ) (ev : SisEvent π ℝ) :
+    (sisStep cfg s ev).step = s.step + 1 := sisStepWith_step _ cfg s ev
+
+theorem sisStep_pred (cfg : SisCfg ℝ) (s : SisState π ℝ) (ev : SisEvent π ℝ) :
+    (sisStep cfg s ev).pred = sisPredict s ev := sisStepWith_pred _ cfg s ev
+
+theorem sisStep_resampled (cfg : SisCfg ℝ) (s : SisState π ℝ) (ev : SisEvent π ℝ) :
+    (sisStep cfg s ev).resampled = sisTrigger cfg (sisCorrect cfg s ev) := sisStepWith_resampled _ cfg s ev
 
 theorem sisStep_cor (cfg : SisCfg ℝ) (s : SisState π ℝ) (ev : SisEvent π ℝ) :
     (sisStep cfg s ev).cor =
       if sisTrigger cfg (sisCorrect cfg s ev) then
         (resample (sisCorrect cfg s ev) (PSet.fresh cfg.N (sisCorrect cfg s ev).lin (sisCorrect cfg s ev).circ)
           (s.rng.headD default)).1
-      else sisCorrect cfg s ev := by
-  unfold sisStep
-  simp only
-  split <;> rfl
+      else sisCorrect cfg s ev := sisStepWith_cor _ cfg s ev
 
 theorem sisStep_parents (cfg : SisCfg ℝ) (s : SisState π ℝ) (ev : SisEvent π ℝ) :
     (sisStep cfg s ev).parents =
       if sisTrigger cfg (sisCorrect cfg s ev) then
         (resample (sisCorrect cfg s ev) (PSet.fresh cfg.N (sisCorrect cfg s ev).lin (sisCorrect cfg s ev).circ)
           (s.rng.headD default)).2
-      else [] := by
-  unfold sisStep
-  simp only
-  split <;> rfl
+      else [] := sisStepWith_parents _ cfg s ev
 
 theorem sis_inv_step' (cfg : SisCfg ℝ) (lin circ : Nat) (hN : 0 < cfg.N) (s : SisState π ℝ) (ev : SisEvent π ℝ)
     (hinv : SisInv cfg lin circ s) (hev : EvOK cfg.N ev) :
-    SisInv cfg lin circ (sisStep cfg s ev) := by
-  have hc := sisCorrect_ok cfg lin circ hN s ev hinv hev
-  refine { pred := ?_, pred0 := ?_, cor := ?_ }
-  · rw [sisStep_pred]; exact (sisPredict_ok cfg lin circ s ev hinv hev.pred).toShapeOK
-  · intro h; rw [sisStep_step] at h; omega
-  · intro _
-    rw [sisStep_cor]
-    split
-    · exact (resampled_ok cfg.N lin circ hN _ hc _).1
-    · exact hc
+    SisInv cfg lin circ (sisStep cfg s ev) :=
+  sis_inv_stepWith _ cfg lin circ hN (resample_resamplerOK cfg.N lin circ hN) s ev hinv hev
 
 end BFL.PF
